@@ -900,6 +900,13 @@ Definition encoder_census : list (string * bool) :=
 Definition encoder_globals : string :=
   "DNSSearchList.marshal:errDNSSLBadDomains+errDNSSLNoDomains;EncodeDHCP4:IPv4zero;EncodeIP4:IPv4zero;Ether.AppendPayload:ErrPayloadTooBig;IP4.AppendPayload:ErrPayloadTooBig;IP6.AppendPayload:ErrPayloadTooBig;RecursiveDNSServer.marshal:errRDNSSNoServers;UDP.AppendPayload:ErrPayloadTooBig".
 
+(* non-constant 8- / 16-bit arithmetic inside the encoder functions, with the place it is used in (go/types).
+   The model computes every length in unbounded integers and wraps (u16 / u8) exactly at these places: the
+   stores into the UDP length field, the RA flag octets and the option Length octets of SEND's marshal
+   functions.  A capacity check, a re-slice or an assignment computed in 16 bits is a new row (tie alarm). *)
+Definition encoder_widths : string :=
+  "RecursiveDNSServer.marshal:1+uint8((slen*2))@other;RouteInformation.marshal:prf<<3@assign;RouteInformation.marshal:uint8(iplen)+1@other;RouterAdvertisement.marshal:prf<<3@assign;UDP.AppendPayload:UDPHeaderLen+uint16(len(b))@arg;UDP.SetPayload:UDPHeaderLen+uint16(len(b))@arg".
+
 (* ---------------- dispatch ---------------- *)
 Definition dispatch (kind : string) (args : list string) : string :=
   if String.eqb kind "ether" then
@@ -1019,6 +1026,8 @@ Definition dispatch (kind : string) (args : list string) : string :=
     end
   else if String.eqb kind "census" then
     out3 (join "," (map fst encoder_census)) "-" "-"
+  else if String.eqb kind "widths" then
+    out3 encoder_widths "-" "-"
   else if String.eqb kind "globals" then
     out3 encoder_globals "-" "-"
   else if String.eqb kind "consts" then
